@@ -5,6 +5,7 @@ import (
 	"reflect"
 	"strings"
 
+	"gorm.io/gorm/schema"
 	"pgregory.net/rapid"
 )
 
@@ -20,6 +21,7 @@ type GenOptions struct {
 	NoKeys               bool // (v2 additions) no key / marker fields
 	Addition             bool // the field is added to a table that already holds rows (C20 v2)
 	NoNonCanonical       bool // listed finding: no numeric default spelled non-canonically (counted through OnExcludeTag)
+	NoUniqueNameClash    bool // listed finding: no two `unique` columns whose constraint names coincide after case folding (counted through OnExcludeTag)
 	NoAddedUnique        bool // listed finding: no `unique` tag on fields added in v2 (counted through OnExcludeTag)
 	OnExcludeTag         func(class string)
 	Names                *Namer
@@ -288,6 +290,11 @@ func GenModel(t *rapid.T, o GenOptions) (*StructSpec, string) {
 		s.Fields = append(s.Fields, genLeaf(t, o, label, false))
 		budget--
 	}
+	defer func() {
+		if !o.NoKeys {
+			crossName(t, s, o)
+		}
+	}()
 	pk := ""
 	if !o.NoKeys {
 		// auto time by field name
@@ -526,4 +533,96 @@ func (rs *Records) Snapshot() (canon [][]string, zero [][]bool) {
 // NewRecords wraps hand-written records (witness tests).
 func NewRecords(m *Model, vals []reflect.Value) *Records {
 	return &Records{M: m, Vals: vals, Boundary: true}
+}
+
+// crossName gives some unprefixed fields a `column:` tag that is spelled like the
+// Go NAME of another field of the model (exact case, or differing only by case),
+// optionally as a chain A -> column "B", B -> column "C" (legacy CamelCase
+// schemas). SQLite column names are case-insensitive, so a rename is kept only
+// if all columns of the model stay distinct ignoring case.
+func crossName(t *rapid.T, s *StructSpec, o GenOptions) {
+	if rapid.IntRange(0, 3).Draw(t, "crossname") != 0 {
+		return
+	}
+	type cand struct {
+		f        *FieldSpec
+		unprefix bool
+	}
+	var all []cand
+	shared := map[*StructSpec]int{}
+	var walk func(s *StructSpec, unprefix bool)
+	walk = func(s *StructSpec, unprefix bool) {
+		shared[s]++
+		if shared[s] > 1 {
+			return
+		}
+		for _, f := range s.Fields {
+			if f.Embedded != nil {
+				walk(f.Embedded, unprefix && f.Prefix == "")
+			} else if !f.Marker {
+				all = append(all, cand{f, unprefix})
+			}
+		}
+	}
+	walk(s, true)
+	valid := func() bool {
+		seen := map[string]bool{}
+		uni := map[string]bool{}
+		for _, l := range Build(s).Leaves {
+			k := strings.ToLower(l.DBName)
+			if seen[k] {
+				return false
+			}
+			seen[k] = true
+			if l.Spec.Unique && o.NoUniqueNameClash {
+				n := schema.NamingStrategy{}.UniqueName("t", l.DBName)
+				if uni[n] {
+					if o.OnExcludeTag != nil {
+						o.OnExcludeTag("unique-name-collision")
+					}
+					return false
+				}
+				uni[n] = true
+			}
+		}
+		return true
+	}
+	steps := rapid.IntRange(1, 3).Draw(t, "crossname.steps")
+	var from *FieldSpec
+	for i := 0; i < steps; i++ {
+		// A: an unprefixed field without column tag (chains continue at the field whose name was just used)
+		var as []*FieldSpec
+		for _, c := range all {
+			if c.unprefix && c.f.Column == "" && (from == nil || c.f == from) && !strings.HasPrefix(c.f.Index, "index:idx") {
+				as = append(as, c.f)
+			}
+		}
+		if len(as) == 0 {
+			return
+		}
+		a := rapid.SampledFrom(as).Draw(t, fmt.Sprintf("crossname.a%d", i))
+		var bs []*FieldSpec
+		for _, c := range all {
+			if c.f != a && c.f.Name != a.Name {
+				bs = append(bs, c.f)
+			}
+		}
+		if len(bs) == 0 {
+			return
+		}
+		b := rapid.SampledFrom(bs).Draw(t, fmt.Sprintf("crossname.b%d", i))
+		col := b.Name
+		switch rapid.IntRange(0, 4).Draw(t, fmt.Sprintf("crossname.case%d", i)) {
+		case 0:
+			col = strings.ToLower(b.Name)
+		case 1:
+			col = strings.ToUpper(b.Name)
+		}
+		a.Column = col
+		if !valid() {
+			a.Column = ""
+			return
+		}
+		from = b
+	}
 }
